@@ -6,6 +6,7 @@ use crate::gen::color;
 use crate::gen::config::Cfg;
 use crate::gen::diff::{gen_case, lines_to_bytes, GenOpts};
 use crate::gen::other;
+use crate::gen::text;
 use crate::runner::{Ctx, Failure, Prop, Sup, Tier, Verdict};
 use crate::tape::{fnv, fnv_add, Tape};
 use crate::term;
@@ -73,6 +74,50 @@ fn recolor_moved(t: &mut Tape, input: &[u8]) -> Vec<u8> {
     out.into_bytes()
 }
 
+/// Program output as `ls --color --hyperlink`, ripgrep with hyperlinks or a colourful build log
+/// write it: every line balanced (each rendition set is reset, each link opened is closed), but
+/// dense with sequences; delta passes such lines through (and cuts them at max-line-length).
+fn decorated_text(t: &mut Tape) -> Vec<u8> {
+    let o = text::TextOpts { allow_markerlike: false, allow_long: false, ..text::TextOpts::all() };
+    let n = t.range(2, 14);
+    let mut out = String::new();
+    for _ in 0..n {
+        let k = t.range(1, 12);
+        let mut line = String::from("x");
+        for _ in 0..k {
+            line.push(' ');
+            let tok = text::token(t, &o);
+            let reset = *t.pick(&["\x1b[m", "\x1b[0m"]);
+            match t.weighted(&[3, 4, 3, 4]) {
+                0 => line.push_str(&tok),
+                1 => {
+                    let code = t.ps(&["31", "1;32", "01;34", "38;5;208", "48;2;1;2;3", "7", "4;35", "30;105"]);
+                    line.push_str(&format!("\x1b[{}m{}{}", code, tok, reset));
+                }
+                2 => {
+                    // every character coloured on its own
+                    for (i, c) in tok.chars().enumerate() {
+                        line.push_str(&format!("\x1b[3{}m{}{}", 1 + (i % 6), c, reset));
+                    }
+                }
+                _ => {
+                    // open link, rendition, text, reset, close link
+                    let url = match t.weighted(&[3, 1]) {
+                        0 => format!("file://host/home/user/{}", text::ident(t)),
+                        _ => format!("https://example.com/{}", "very-long-path-segment/".repeat(t.range(3, 14))),
+                    };
+                    let st = *t.pick(&["\x1b\\", "\x07"]);
+                    let inner = if t.coin() { format!("\x1b[01;34m{}{}", tok, reset) } else { tok.clone() };
+                    line.push_str(&format!("\x1b]8;;{}{}{}\x1b]8;;{}", url, st, inner, st));
+                }
+            }
+        }
+        out.push_str(&line);
+        out.push('\n');
+    }
+    out.into_bytes()
+}
+
 impl Prop for C09 {
     fn id(&self) -> &'static str {
         "C09"
@@ -90,7 +135,7 @@ impl Prop for C09 {
         3000
     }
     fn rule(&self) -> String {
-        "cases = git diff streams (all section kinds, commits), plain or coloured by the colouriser (balanced sequences by construction), with moved-line renditions on changed lines; coloured grep and blame streams under their calling-process identities x option sets biased to narrow widths, small max-line-length, wrapping/truncation in side-by-side, hyperlinks with several templates, decorations, raw styles, map-styles. Oracle (terminal model over stdout): at every newline the rendition is the default one, no OSC 8 hyperlink is open, the byte parser is in ground state; no control sequence other than SGR, EL and OSC 8 occurs. Non-trivial = some output line has >=2 rendition changes and the case involves a truncation mark, wrap symbol, fill, or hyperlink; distinct by hash of (input, argv).".to_string()
+        "cases = git diff streams (all section kinds, commits), plain or coloured by the colouriser (balanced sequences by construction), with moved-line renditions on changed lines; coloured grep and blame streams under their calling-process identities; passed-through program output dense with balanced sequences (per-word and per-character renditions, OSC 8 links around styled text with short and very long URLs, both string terminators) under small max-line-length; x option sets biased to narrow widths, small max-line-length, wrapping/truncation in side-by-side, hyperlinks with several templates, decorations, raw styles, map-styles. Oracle (terminal model over stdout): at every newline the rendition is the default one, no OSC 8 hyperlink is open, the byte parser is in ground state; no control sequence other than SGR, EL and OSC 8 occurs. Non-trivial = some output line has >=2 rendition changes and the case involves a truncation mark, wrap symbol, fill, or hyperlink; distinct by hash of (input, argv).".to_string()
     }
     fn assumptions(&self) -> Vec<String> {
         vec![
@@ -102,7 +147,7 @@ impl Prop for C09 {
         true
     }
     fn check(&self, t: &mut Tape, ctx: &mut Ctx) -> Verdict {
-        let cfg = gen_cfg(t);
+        let mut cfg = gen_cfg(t);
         let ident = ctx.identity.clone();
         let is_grep = ident.get(1).map(|s| s == "grep").unwrap_or(false);
         let is_blame = ident.get(1).map(|s| s == "blame").unwrap_or(false);
@@ -110,6 +155,12 @@ impl Prop for C09 {
             (other::grep_stream(t), "grep")
         } else if is_blame {
             (other::blame_stream(t), "blame")
+        } else if t.chance(1, 5) {
+            // passed-through program output, cut at a small maximum line length
+            if t.chance(3, 4) {
+                cfg.set("max-line-length", t.ps(&["5", "11", "12", "20", "33", "64"]));
+            }
+            (decorated_text(t), "decorated-text")
         } else {
             let mut o = GenOpts::default_full();
             o.max_lines = 8;
